@@ -397,6 +397,12 @@ def find(req):
         if c and c["witness"] is not None:
             return dict(c["witness"], reproduced=True, search=f"{check}[{m.group(2)}]: {c['failures']} of {c['checked']} inputs fail")
         return {"reproduced": False, "note": f"{check}[{m.group(2)}]: no failing input"}
+    if "_process_slide_from_context/block#" in oid:
+        from replay import c02_docs
+        for feat, rec in c02_docs.run_documents(["pptx"]).get("pptx", {}).items():
+            if rec.get("ok") is False:
+                return dict(rec, reproduced=True, search="pptx deck features (replay/c02_docs.py), feature " + feat)
+        return {"reproduced": False, "note": "no failing pptx deck feature"}
     for frag, check, cases, kinds in WITNESS_MAP:
         if frag in oid:
             r = CHECKS[check]()
